@@ -622,6 +622,7 @@ def run_harness_cases(cases, wd, tag, survive_abort=False):
         core.write_ndjson(inp, todo)
         e = dict(os.environ)
         e.setdefault("RUST_BACKTRACE", "0")
+        core.coverage_env(e, HARNESS[1])
         with open(inp) as fin, open(outp, "w") as fout:
             try:
                 p = subprocess.run([core.harness_bin(HARNESS[1])], stdin=fin, stdout=fout, stderr=subprocess.PIPE,
